@@ -364,3 +364,18 @@ func (r *Result) finish(p *Program, verifDir string, start time.Time, seed int, 
 	}
 	return 0
 }
+
+// importRule runs a sibling rule and files its obligations under a rule of this property: a structural condition that
+// two properties both depend on is decided once and reported under each (keys become "<into>[<rule>] | ...").
+func importRule(p *Program, r *Result, into string, run func(sub *Result), keep func(o *Obligation) bool) {
+	sub := newResult(r.Prop, "sub")
+	run(sub)
+	for _, o := range sub.Obls {
+		if o.Status == Note || (keep != nil && !keep(&o)) {
+			continue
+		}
+		o.Key = strings.Replace(o.Key, o.Rule+" |", into+"["+o.Rule+"] |", 1)
+		o.Rule = into
+		r.Obls = append(r.Obls, o)
+	}
+}
